@@ -489,7 +489,26 @@ class Interp:
             return self.builtins[name]
         if name in ('True', 'False', 'None'):
             return {'True': True, 'False': False, 'None': None}[name]
-        raise Raised('NameError', f'name {name} is not defined', node, self.cur_fn())
+        # module-level variable ( NAME = <expression> at the top level of the module): evaluated once per interpreter, in the module's own scope,
+        # and then shared by every call (so a module-level cache behaves like one)
+        gl = self.__dict__.setdefault('module_globals', {}).setdefault(mod.name, {})
+        if name in gl:
+            return gl[name]
+        for st in mod.tree.body:
+            tgt = None
+            if isinstance(st, ast.Assign) and len(st.targets) == 1 and isinstance(st.targets[0], ast.Name):
+                tgt = st.targets[0].id
+            elif isinstance(st, ast.AnnAssign) and isinstance(st.target, ast.Name) and st.value is not None:
+                tgt = st.target.id
+            if tgt == name:
+                self.stack.append(Frame(fr.fn, mod, {}))
+                try:
+                    gl[name] = self.ev(st.value)
+                finally:
+                    self.stack.pop()
+                return gl[name]
+        # not found: the analyser's name resolution is not Python's (star imports, conditional definitions ...): no verdict
+        raise AnalysisError(f'name {name!r} cannot be resolved at {self.where()}')
 
     # ------------------------------------------------------------------ statements
     def block(self, body):
